@@ -11,7 +11,7 @@ pub mod fsprops;
 pub mod sdprops;
 
 pub fn run(id: &str, tier: &str) -> i32 {
-    let st = crate::selftest::run(false);
+    let st = crate::selftest::run_machinery(false);
     if st != 0 {
         return st;
     }
